@@ -209,7 +209,7 @@ func BigSessionTrial(p *sut.Proc, n int) (out *BigSessionOutcome) {
 	}
 	one := func(int) int { return 1 }
 	wants := []want{
-		{"component add", []string{"C13", "C02"}, one}, {"component update", []string{"C13"}, one}, {"pose", []string{"C11", "C02"}, one},
+		{"component add", []string{"C13", "C02", "C01"}, one}, {"component update", []string{"C13", "C01"}, one}, {"pose", []string{"C11", "C02"}, one},
 		{"custom big-broadcast", []string{"C14", "C02"}, one}, {"custom big-to-everybody", []string{"C14"}, one},
 		{"custom big-to-every-second", []string{"C14"}, func(i int) int { return 1 - i%2 }},
 		{"entity add", []string{"C02", "C01"}, one}, {"join", []string{"C02", "C01"}, one}, {"leave", []string{"C02", "C06"}, one},
